@@ -8,7 +8,7 @@ namespace MjProof.CType
 /-! ### digits -/
 
 /-- characters printed by `intStr` -/
-def numChar (c : Char) : Bool := (digitVal c).isSome || c == '-'
+def numChar (c : Ch) : Bool := (digitVal c).isSome || c == 45
 
 theorem digitVal_digitChar : ∀ d, d < 10 → digitVal (digitChar d) = some d := by decide
 
@@ -16,24 +16,19 @@ theorem numChar_digitChar (d : Nat) : numChar (digitChar d) = true := by
   unfold digitChar
   split <;> decide
 
-theorem numChar_facts {c : Char} (h : numChar c = true) :
-    isWs c = false ∧ c ≠ ']' ∧ c ≠ '[' ∧ c ≠ '(' ∧ c ≠ ')' ∧ c ≠ '*' := by
+theorem numChar_facts {c : Ch} (h : numChar c = true) :
+    isWs c = false ∧ c ≠ 93 ∧ c ≠ 91 ∧ c ≠ 40 ∧ c ≠ 41 ∧ c ≠ 42 := by
   simp only [numChar, Bool.or_eq_true, beq_iff_eq] at h
-  rcases h with h | h
-  · have hn : 48 ≤ c.toNat ∧ c.toNat ≤ 57 := by
+  have hn : (48 ≤ c ∧ c ≤ 57) ∨ c = 45 := by
+    rcases h with h | h
+    · left
       simp only [digitVal] at h
-      by_cases hc : 48 ≤ c.toNat ∧ c.toNat ≤ 57
+      by_cases hc : 48 ≤ c ∧ c ≤ 57
       · exact hc
       · simp [hc] at h
-    refine ⟨?_, ?_, ?_, ?_, ?_, ?_⟩
-    · simp only [isWs, Bool.or_eq_false_iff, Bool.and_eq_false_iff, decide_eq_false_iff_not, beq_eq_false_iff_ne]
-      omega
-    · exact toNat_inj_ne (n := 93) (by omega) _ rfl
-    · exact toNat_inj_ne (n := 91) (by omega) _ rfl
-    · exact toNat_inj_ne (n := 40) (by omega) _ rfl
-    · exact toNat_inj_ne (n := 41) (by omega) _ rfl
-    · exact toNat_inj_ne (n := 42) (by omega) _ rfl
-  · subst h; decide
+    · exact Or.inr h
+  simp only [isWs, Bool.or_eq_false_iff, Bool.and_eq_false_iff, decide_eq_false_iff_not, beq_eq_false_iff_ne]
+  omega
 
 /-- value accumulated by reading the decimal digits of `n` after `a` -/
 def shiftAux : Nat → Nat → Nat → Nat
@@ -145,7 +140,7 @@ theorem strip_numChars {s : Str} (h : ∀ c ∈ s, numChar c = true) : strip s =
       have : b ∈ (a :: l).reverse := by rw [hr]; simp
       exact List.mem_reverse.mp this
 
-theorem digit_head_ne_sign {m : Nat} : ∀ c r, natDigits m = c :: r → c ≠ '-' ∧ c ≠ '+' := by
+theorem digit_head_ne_sign {m : Nat} : ∀ c r, natDigits m = c :: r → c ≠ 45 ∧ c ≠ 43 := by
   intro c r h
   have hc : numChar c = true := natDigits_chars m c (by rw [h]; simp)
   -- the head of natDigits is a digit character: it is produced by digitChar
@@ -191,7 +186,7 @@ theorem parseInt_intStr (n : Int) : parseInt (intStr n) = some n := by
 
 /-! ### extents -/
 
-theorem extentsStr_chars (e : List Int) : ∀ c ∈ extentsStr e, c = '[' ∨ c = ']' ∨ numChar c = true := by
+theorem extentsStr_chars (e : List Int) : ∀ c ∈ extentsStr e, c = 91 ∨ c = 93 ∨ numChar c = true := by
   induction e with
   | nil => simp [extentsStr]
   | cons n r ih =>
@@ -203,12 +198,12 @@ theorem extentsStr_chars (e : List Int) : ∀ c ∈ extentsStr e, c = '[' ∨ c 
     · exact Or.inr (Or.inl h)
     · exact ih c h
 
-theorem extentsStr_no_paren (e : List Int) : '(' ∉ extentsStr e ∧ ')' ∉ extentsStr e ∧ '*' ∉ extentsStr e := by
+theorem extentsStr_no_paren (e : List Int) : 40 ∉ extentsStr e ∧ 41 ∉ extentsStr e ∧ 42 ∉ extentsStr e := by
   refine ⟨?_, ?_, ?_⟩ <;> intro h <;> rcases extentsStr_chars e _ h with h | h | h <;>
     first | (revert h; decide) | skip
   all_goals (have := numChar_facts h; simp at this)
 
-theorem takeWhile_append_stop {p : Char → Bool} {a : Str} {x : Char} {b : Str}
+theorem takeWhile_append_stop {p : Ch → Bool} {a : Str} {x : Ch} {b : Str}
     (ha : ∀ c ∈ a, p c = true) (hx : p x = false) :
     (a ++ x :: b).takeWhile p = a ∧ (a ++ x :: b).dropWhile p = x :: b := by
   induction a with
@@ -228,7 +223,7 @@ theorem groups_extentsStr : ∀ (e : List Int) (f : Nat), e ≠ [] → e.length 
     cases f with
     | zero => omega
     | succ f =>
-      have hstop := takeWhile_append_stop (p := (· != ']')) (a := intStr n) (x := ']') (b := extentsStr r)
+      have hstop := takeWhile_append_stop (p := (· != 93)) (a := intStr n) (x := 93) (b := extentsStr r)
         (by intro c hc; have := (numChar_facts (intStr_chars n c hc)).2.1; simpa using this) (by decide)
       have hne : (intStr n).isEmpty = false := by
         have := intStr_ne_nil n
@@ -240,7 +235,7 @@ theorem groups_extentsStr : ∀ (e : List Int) (f : Nat), e ≠ [] → e.length 
       | nil => simp [extentsStr]
       | cons m r' =>
         have hd : (extentsStr (m :: r')).dropWhile isWs = extentsStr (m :: r') := by
-          have hw : isWs '[' = false := by decide
+          have hw : isWs 91 = false := by decide
           simp [extentsStr, List.dropWhile, hw]
         have hne2 : (extentsStr (m :: r')).isEmpty = false := by simp [extentsStr]
         simp only [hd, hne2]
@@ -252,28 +247,28 @@ theorem extentsStr_length (e : List Int) : e.length ≤ (extentsStr e).length :=
   | nil => simp [extentsStr]
   | cons n r ih => simp only [extentsStr, List.length_cons, List.length_append]; omega
 
-theorem findArr_none {s : Str} (h : '[' ∉ s) : findArr s = none := by
+theorem findArr_none {s : Str} (h : 91 ∉ s) : findArr s = none := by
   induction s with
   | nil => rfl
   | cons c cs ih =>
-    have hc : c ≠ '[' := fun e => h (by simp [e])
+    have hc : c ≠ 91 := fun e => h (by simp [e])
     simp [findArr, hc, ih (fun m => h (by simp [m]))]
 
-theorem findArr_append {pre : Str} (hpre : '[' ∉ pre) (e : List Int) (he : e ≠ []) :
+theorem findArr_append {pre : Str} (hpre : 91 ∉ pre) (e : List Int) (he : e ≠ []) :
     findArr (pre ++ extentsStr e) = some (pre, e.map intStr) := by
   induction pre with
   | nil =>
     cases e with
     | nil => exact absurd rfl he
     | cons n r =>
-      have hg := groups_extentsStr (n :: r) ((intStr n ++ ']' :: extentsStr r).length + 2) (by simp) (by
+      have hg := groups_extentsStr (n :: r) ((intStr n ++ 93 :: extentsStr r).length + 2) (by simp) (by
         have := extentsStr_length r
         simp only [List.length_cons, List.length_append]; omega)
       simp only [List.nil_append, extentsStr, findArr, if_true]
       simp only [extentsStr] at hg
       rw [hg]
   | cons c cs ih =>
-    have hc : c ≠ '[' := fun e => hpre (by simp [e])
+    have hc : c ≠ 91 := fun e => hpre (by simp [e])
     simp [findArr, hc, ih (fun m => hpre (by simp [m]))]
 
 theorem mapMOpt_parseInt (e : List Int) : mapMOpt parseInt (e.map intStr) = some e := by
